@@ -136,7 +136,10 @@ def makeSummaryTxs (yearOf : Int → Int) (jan1 : Int → Int) (latest : Int) (a
     let unsum := (ds.take (r.lastInRange + 1)).drop firstUnsum
     sorted ++ unsum.map (fun d =>
       match d.sfl, d.tx.act with
-      | some s, .sell sh px comm rate crate _ => { d.tx with act := .sell sh px comm rate crate (some (s.loss, false)) }
+      | some s, .sell sh px comm rate crate spec =>
+        -- an amount the user forced stays forced (fix cd15d29)
+        let force := match spec with | some (_, f) => f | none => false
+        { d.tx with act := .sell sh px comm rate crate (some (s.loss, force)) }
       | _, _ => d.tx)
 
 end Acb
